@@ -304,3 +304,77 @@ func verifHarness_C06_forwarder() {
 	verifAssert(verifLiveThreads() == 0, "no-relay-worker-left-running")
 	_ = retErr
 }
+
+// verifHarness_C06_twoStreams: two pass-through streams reading the same source shard (the initiator
+// has more shards than the source, or a stream is re-established while the old one winds down) with
+// the real stream tracker (not the observability no-op): when one of them ends, the other keeps
+// relaying in both directions and its handler returns when it ends - bookkeeping shared between
+// streams must not wedge them.
+func verifHarness_C06_twoStreams() {
+	verifConfig("preempt", verifParam("preempt", 0))
+	type stream struct {
+		ini      *fwInit
+		src      *fwSrc
+		cancel   context.CancelFunc
+		returned bool
+	}
+	mk := func(targetShard int32) *stream {
+		ctx, cancel := context.WithCancel(metadata.NewIncomingContext(context.Background(), metadata.Pairs("k", "v")))
+		st := &stream{ini: &fwInit{ctx: ctx, in: make(chan c06Event, 8)}, src: &fwSrc{in: make(chan c06Event, 8)}, cancel: cancel}
+		client := &fwAdminClient{src: st.src}
+		go func() {
+			_ = handleStream(st.ini, metadata.Pairs("a", "b"),
+				history.ClusterShardID{ClusterID: 1, ShardID: 3}, history.ClusterShardID{ClusterID: 2, ShardID: targetShard},
+				log.NewNoopLogger(), config.ShardCountConfig{}, LCMParameters{}, RoutingParameters{},
+				client, nil, nil, []string{"l"}, context.Background())
+			st.returned = true
+		}()
+		return st
+	}
+	a := mk(3)
+	verifQuiesce()
+	b := mk(7)
+	verifQuiesce()
+	relay := func(st *stream, k int, label string) {
+		m := c06Resp(k)
+		n := len(st.ini.got)
+		st.src.in <- c06Event{resp: m}
+		verifQuiesce()
+		verifAssert(len(st.ini.got) == n+1 && verifSameObject(st.ini.got[n], m), label+":replication-message-relayed-to-initiator")
+		r := c06Req(k)
+		n = len(st.src.got)
+		st.ini.in <- c06Event{req: r}
+		verifQuiesce()
+		verifAssert(len(st.src.got) == n+1 && verifSameObject(st.src.got[n], r), label+":sync-state-relayed-to-source")
+	}
+	relay(a, 0, "both-live:first")
+	relay(b, 1, "both-live:second")
+	// one of them ends (either one, either way)
+	first, second := a, b
+	if verifChoose("which-ends", 2) == 1 {
+		first, second = b, a
+	}
+	verifAction("one-stream-ends")
+	if verifChoose("how", 2) == 0 {
+		first.src.in <- c06Event{err: io.EOF}
+	} else {
+		first.ini.in <- c06Event{err: io.EOF}
+	}
+	verifQuiesce()
+	verifQuiesce()
+	verifAssert(first.returned, "two-streams:ended-stream's-handler-returned")
+	first.cancel()
+	verifQuiesce()
+	verifReach("sibling-stream-ended")
+	// the survivor keeps relaying (several messages) and ends cleanly
+	for k := 2; k < 5; k++ {
+		relay(second, k, "survivor")
+	}
+	second.src.in <- c06Event{err: io.EOF}
+	verifQuiesce()
+	verifQuiesce()
+	verifAssert(second.returned, "two-streams:survivor's-handler-returned")
+	second.cancel()
+	verifQuiesce()
+	verifAssert(verifLiveThreads() == 0, "two-streams:no-relay-worker-left-running")
+}
